@@ -26,7 +26,10 @@ from vcore import pyres  # noqa: F401  (kept for symmetry with the other checks)
 SUCCESS = 0
 MP_PROP = 0x0B
 SIMPLE = {"fill_memory", "flash_erase_region", "flash_erase_all", "execute", "call", "flash_erase_all_unsecure",
-          "configure_memory", "reliable_update", "set_property"}
+          "configure_memory", "reliable_update", "set_property", "kp_enroll", "kp_set_intrinsic_key", "kp_write_nonvolatile",
+          "kp_read_nonvolatile", "flash_program_once", "efuse_program_once"}
+DATA_OPS = {"write_memory", "receive_sb_file", "read_memory", "get_property", "kp_set_user_key", "kp_write_key_store", "kp_read_key_store",
+            "flash_read_resource", "flash_read_once", "efuse_read_once"}
 
 
 def hx(b):
@@ -215,6 +218,35 @@ def call_op(mb, op):
         return canon_val(mb.write_memory(op["addr"], op_data(op), op["mem_id"]))
     if k == "receive_sb_file":
         return canon_val(mb.receive_sb_file(op_data(op), check_errors=bool(op["check"])))
+    if k == "load_image":
+        return canon_val(mb.load_image(op_data(op)))
+    if k == "flash_read_once":
+        return canon_val(mb.flash_read_once(op["index"], op["count"]))
+    if k == "flash_program_once":
+        return canon_val(mb.flash_program_once(op["index"], op_data(op)))
+    if k == "efuse_read_once":
+        v = mb.efuse_read_once(op["index"])
+        return "ok:none" if v is None else f"ok:n:{v}"
+    if k == "efuse_program_once":
+        return canon_val(mb.efuse_program_once(op["index"], op["value"], bool(op["verify"])))
+    if k == "flash_read_resource":
+        return canon_val(mb.flash_read_resource(op["addr"], op["n"], op["option"]))
+    if k == "kp_enroll":
+        return canon_val(mb.kp_enroll())
+    if k == "kp_set_intrinsic_key":
+        return canon_val(mb.kp_set_intrinsic_key(op["key_type"], op["key_size"]))
+    if k == "kp_write_nonvolatile":
+        return canon_val(mb.kp_write_nonvolatile(op["mem_id"]))
+    if k == "kp_read_nonvolatile":
+        return canon_val(mb.kp_read_nonvolatile(op["mem_id"]))
+    if k == "kp_set_user_key":
+        return canon_val(mb.kp_set_user_key(op["key_type"], op_data(op)))
+    if k == "kp_write_key_store":
+        return canon_val(mb.kp_write_key_store(op_data(op)))
+    if k == "kp_read_key_store":
+        return canon_val(mb.kp_read_key_store())
+    if k == "reset":
+        return canon_val(mb.reset(timeout=0, reopen=bool(op["reopen"])))
     raise ValueError(k)
 
 
@@ -248,6 +280,32 @@ def op_line(op):
         return f"op write_memory {op['addr']} {hx(op_data(op))} {op['mem_id']}"
     if k == "receive_sb_file":
         return f"op receive_sb_file {hx(op_data(op))} {int(op['check'])}"
+    if k == "load_image":
+        return f"op load_image {hx(op_data(op))}"
+    if k == "flash_read_once":
+        return f"op flash_read_once {op['index']} {op['count']}"
+    if k == "flash_program_once":
+        return f"op flash_program_once {op['index']} {hx(op_data(op))}"
+    if k == "efuse_read_once":
+        return f"op efuse_read_once {op['index']}"
+    if k == "efuse_program_once":
+        return f"op efuse_program_once {op['index']} {op['value']} {int(op['verify'])}"
+    if k == "flash_read_resource":
+        return f"op flash_read_resource {op['addr']} {op['n']} {op['option']}"
+    if k == "kp_enroll":
+        return "op kp_enroll"
+    if k == "kp_set_intrinsic_key":
+        return f"op kp_set_intrinsic_key {op['key_type']} {op['key_size']}"
+    if k in ("kp_write_nonvolatile", "kp_read_nonvolatile"):
+        return f"op {k} {op['mem_id']}"
+    if k == "kp_set_user_key":
+        return f"op kp_set_user_key {op['key_type']} {hx(op_data(op))}"
+    if k == "kp_write_key_store":
+        return f"op kp_write_key_store {hx(op_data(op))}"
+    if k == "kp_read_key_store":
+        return "op kp_read_key_store"
+    if k == "reset":
+        return f"op reset {int(op['reopen'])}"
     raise ValueError(k)
 
 
@@ -266,14 +324,14 @@ def run_real(cfg, transcript, ops):
     mb = McuBoot(proto, cmd_exception=bool(cfg["ce"]))
     out = []
     for op in ops:
-        n0 = len(dev.tx)
+        n0, r0 = len(dev.tx), dev.reads
         try:
             res = call_op(mb, op)
         except Exception as exc:  # noqa: BLE001
             res = classify_exc(exc)
             if isinstance(exc, RuntimeError) and "verif: read budget" in str(exc):
                 res = "E:unbounded"
-        out.append((res, int(mb.status_code), dev.tx[n0:]))
+        out.append((res, int(mb.status_code), dev.tx[n0:], dev.reads - r0))
     return out, dev.leftover(), dev.reads
 
 
@@ -293,6 +351,21 @@ def dev_line(dev):
     return f"dev {hx(dev_mem(dev))} {dev['mp']} {dev['pad']} {dev['dummy']} {props} {rw} {faults}"
 
 
+def dev_resource(dev):
+    return gen_bytes(dev["mem_seed"] + 1, dev.get("res_size", 0))
+
+
+def dev_keystore(dev):
+    return gen_bytes(dev["mem_seed"] + 2, dev.get("ks_size", 0))
+
+
+def dev2_line(dev):
+    fuses = ";".join(f"{k}={v}" for k, v in dev.get("fuses", [])) or "-"
+    locked = ";".join(str(x) for x in dev.get("locked", [])) or "-"
+    ab = dev.get("abort")
+    return f"dev2 {fuses} {locked} {hx(dev_resource(dev))} {hx(dev_keystore(dev))} {int(dev.get('image_mode', False))} {'-' if ab is None else ab}"
+
+
 def chunk_str(c, hid):
     if hid:
         return "+".join(hx(r) for r in c) if c else "-"
@@ -310,21 +383,21 @@ def parse_chunk(s, hid):
 
 
 def parse_op_answer(ans, hid):
-    """'<res> st=<n> tx=<..> rel=<..>' -> (res, status, [tx], [released chunks])"""
+    """'<res> st=<n> rd=<n> tx=<..> rel=<..>' -> (res, status, [tx], [released chunks], reads)"""
     parts = ans.split(" ")
-    if len(parts) != 4:
-        return (ans, -1, [], [])
-    res, st, tx, rel = parts
+    if len(parts) != 5:
+        return (ans, -1, [], [], -1)
+    res, st, rd, tx, rel = parts
     txl = [] if tx[3:] == "." else [bytes.fromhex(w) if w != "-" else b"" for w in tx[3:].split(",")]
     rell = [] if rel[4:] == "." else [parse_chunk(c, hid) for c in rel[4:].split(",")]
-    return res, int(st[3:]), txl, rell
+    return res, int(st[3:]), txl, rell, int(rd[3:])
 
 
 def model_live(drv, cfg, dev, ops):
     hid = cfg["tr"] == "hid"
-    lines = [cfg_line(cfg), dev_line(dev), "live"] + [op_line(o) for o in ops] + ["state"]
+    lines = [cfg_line(cfg), dev_line(dev), dev2_line(dev), "live"] + [op_line(o) for o in ops] + ["state"]
     ans = drv.batch(lines)
-    per_op = [parse_op_answer(a, hid) for a in ans[3:-1]]
+    per_op = [parse_op_answer(a, hid) for a in ans[4:-1]]
     return per_op, ans[-1]
 
 
@@ -335,8 +408,8 @@ def model_script(drv, cfg, transcript, ops):
     return [parse_op_answer(a, hid) for a in ans[2:]]
 
 
-def canon_op(res, status, tx):
-    return f"{res} st={status} tx=" + (",".join(hx(w) for w in tx) if tx else ".")
+def canon_op(res, status, tx, reads=None):
+    return f"{res} st={status}" + ("" if reads is None else f" rd={reads}") + " tx=" + (",".join(hx(w) for w in tx) if tx else ".")
 
 
 # ----------------------------------------------------------------------------------------------- python oracle device
@@ -359,6 +432,33 @@ class PyDev:
         self.max_data_packet = 0
         self.bad_packets = 0
         self.events = []  # (kind, info) per command, in order: what the device did
+        self.fuses = dict(dev.get("fuses", []))
+        self.locked = set(dev.get("locked", []))
+        self.resource = dev_resource(dev)
+        self.ks = dev_keystore(dev)
+        self.keys = {}
+        self.image_mode = bool(dev.get("image_mode", False))
+        self.image = b""
+        self.abort = dev.get("abort")
+        self.pkt = 0
+        self.kp = None
+        self.kpbuf = b""
+
+    def program(self, i, v):
+        if i not in self.locked:
+            self.fuses[i] = self.fuses.get(i, 0) | v
+
+    def finish(self, tag):
+        if tag == 0x15 and self.kp is not None:
+            if self.kp[0] == 5:
+                self.ks = self.kpbuf
+            else:
+                self.keys[self.kp[1]] = self.kpbuf
+
+    def state_str(self):
+        fuses = ";".join(f"{k}={v}" for k, v in sorted(self.fuses.items())) or "-"
+        keys = ";".join(f"{k}={hx(v)}" for k, v in sorted(self.keys.items())) or "-"
+        return f"mem={hx(self.mem)} sb={hx(self.sb)} ncmd={self.ncmd} img={hx(self.image)} ks={hx(self.ks)} fuses={fuses} keys={keys}"
 
     def feed(self, w):
         if self.hid:
@@ -395,6 +495,7 @@ class PyDev:
         idx = self.ncmd
         self.ncmd += 1
         self.phase = None
+        self.pkt = 0
         ev = {"tag": tag, "params": params, "status": 0, "idx": idx}
         self.events.append(ev)
         if (idx, False) in self.faults:
@@ -458,22 +559,70 @@ class PyDev:
                 self.phase = [8, 0, params[0], ev]
         elif tag in (9, 10, 13, 17, 18):
             self.log.append((tag, params))
-        elif tag in (7, 12, 5, 2, 3, 4, 8):
+        elif tag == 11:
+            pass
+        elif tag == 0x10 and len(params) == 3:
+            a, ln, _ = params
+            if a + ln <= len(self.resource):
+                ev["data"] = self.resource[a:a + ln]
+                ev["final"] = fin
+            else:
+                ev["status"] = 10200
+        elif tag == 0x0F and len(params) == 2 and params[1] in (4, 8):
+            i, ln = params
+            ev["values"] = [self.fuses.get(i, 0)] + ([self.fuses.get(i + 1, 0)] if ln == 8 else [])
+        elif tag == 0x0E and len(params) == 3 and params[1] == 4:
+            self.program(params[0], params[2])
+        elif tag == 0x0E and len(params) == 4 and params[1] == 8:
+            self.program(params[0], params[2])
+            self.program(params[0] + 1, params[3])
+        elif tag == 0x15 and len(params) == 1 and params[0] == 0:
+            self.log.append((tag, params))
+        elif tag == 0x15 and len(params) == 1 and params[0] == 6:
+            ev["data"] = self.ks
+            ev["final"] = fin
+        elif tag == 0x15 and len(params) == 2 and params[0] in (3, 4):
+            self.log.append((tag, params))
+        elif tag == 0x15 and len(params) == 3 and params[0] == 2:
+            self.log.append((tag, params))
+        elif tag == 0x15 and len(params) == 3 and params[0] in (1, 5):
+            self.kp = (params[0], params[1])
+            self.kpbuf = b""
+            ev["final"] = fin
+            ev["expect"] = params[2]
+            ev["got"] = 0
+            if params[2]:
+                self.phase = [0x15, 0, params[2], ev]
+            else:
+                self.finish(0x15)
+        elif tag in (7, 12, 5, 2, 3, 4, 8, 0x10, 0x0F, 0x0E, 0x15):
             ev["status"] = 1
         else:
             ev["status"] = 10000
 
     def data(self, p):
         self.max_data_packet = max(self.max_data_packet, len(p))
-        if self.phase is None or not p or len(p) > self.mp or len(p) > self.phase[2]:
+        if self.phase is None:
+            if self.image_mode and p and len(p) <= self.mp:
+                self.image += p
+            else:
+                self.bad_packets += 1
+            return
+        if self.abort is not None and self.pkt == self.abort:
+            self.phase[3]["final"] = 10002
+            self.phase = None
+            return
+        if not p or len(p) > self.mp or len(p) > self.phase[2]:
             self.bad_packets += 1
-            if self.phase is not None:
-                self.phase[3]["final"] = 10002
+            self.phase[3]["final"] = 10002
             self.phase = None
             return
         tag, a, rem, ev = self.phase
+        self.pkt += 1
         if tag == 4:
             self.mem[a:a + len(p)] = p
+        elif tag == 0x15:
+            self.kpbuf += p
         else:
             self.sb += p
         ev["got"] += len(p)
@@ -481,10 +630,13 @@ class PyDev:
         self.phase[2] -= len(p)
         if self.phase[2] == 0:
             self.phase = None
+            self.finish(tag)
 
 
-def expected_success(op, evs, cfg):
+def expected_success(op, evs, cfg, verify_ok=True):
     """no-fault pass: does the protocol say this op succeeds?  evs = device events caused by the op."""
+    if op["op"] == "efuse_program_once" and op["verify"] and not verify_ok:
+        return False
     for ev in evs:
         if ev["tag"] == 7 and ev["params"][:1] == [MP_PROP] and op["op"] != "get_property":
             continue  # the max-packet-size query of _split_data/_get_max_packet_size: failure falls back to the default
@@ -512,7 +664,9 @@ def gen_dev(rng, cfg, big=False):
             "pad": rng.choice([0, 0, mp + 4, 1020 if mp <= 1016 else 0]) if cfg["tr"] == "hid" else 0,
             "dummy": rng.choice([0, 0, 0, 1, 3, 49, 50]) if cfg["tr"] == "serial" else 0,
             "props": [(1, 0x4B030100), (2, 0x13), (10, rng.randrange(2)), (20, rng.getrandbits(32))],
-            "rw": [10, 20], "faults": []}
+            "rw": [10, 20], "faults": [],
+            "fuses": [(3, rng.getrandbits(32)), (4, 0xFF00), (9, 1)], "locked": [4], "res_size": rng.choice([0, 16, 64]),
+            "ks_size": rng.choice([0, 1, 17, 100]), "image_mode": rng.random() < 0.5, "abort": rng.choice([None] * 6 + [0, 1, 2])}
 
 
 def gen_len(rng, mp, cap):
@@ -525,6 +679,9 @@ def gen_op(rng, cfg, dev, first, malformed=False):
     kinds = ["read_memory"] * 5 + ["write_memory"] * 5 + ["get_property"] * 2 + ["set_property", "fill_memory", "flash_erase_region",
                                                                                   "flash_erase_all", "receive_sb_file", "receive_sb_file", "execute", "call",
                                                                                   "flash_erase_all_unsecure", "configure_memory", "reliable_update"]
+    kinds += ["load_image", "load_image", "flash_read_once", "flash_program_once", "efuse_read_once", "efuse_program_once", "efuse_program_once",
+              "flash_read_resource", "kp_enroll", "kp_set_intrinsic_key", "kp_write_nonvolatile", "kp_read_nonvolatile", "kp_set_user_key",
+              "kp_write_key_store", "kp_read_key_store", "reset"]
     if cfg["tr"] == "serial":
         kinds += ["open"] * (6 if first else 1)
     k = rng.choice(kinds)
@@ -559,6 +716,28 @@ def gen_op(rng, cfg, dev, first, malformed=False):
         op.update(addr=rng.getrandbits(32), mem_id=mem_id)
     elif k == "reliable_update":
         op.update(addr=rng.getrandbits(32))
+    elif k in ("load_image", "kp_set_user_key", "kp_write_key_store"):
+        op.update(n=gen_len(rng, mp, 1500), seed=rng.randrange(1 << 30))
+        if k == "kp_set_user_key":
+            op.update(key_type=rng.choice([2, 3, 7, 11]))
+    elif k == "flash_read_once":
+        op.update(index=rng.choice([3, 4, 9, 30]), count=rng.choice([4, 4, 8, 8, 5, 0]))
+    elif k == "flash_program_once":
+        op.update(index=rng.choice([3, 4, 9, 30]), n=rng.choice([4, 4, 8, 8, 3, 12]), seed=rng.randrange(1 << 30))
+    elif k == "efuse_read_once":
+        op.update(index=rng.choice([3, 4, 9, 30]))
+    elif k == "efuse_program_once":
+        op.update(index=rng.choice([3, 4, 9, 30, 0x01000003]), value=rng.choice([1, 0xFF, 0xFF00, rng.getrandbits(32)]), verify=rng.random() < 0.6)
+    elif k == "flash_read_resource":
+        rs = dev.get("res_size", 0)
+        n = rng.choice([0, 4, 8, 16, 6, rs])
+        op.update(addr=rng.choice([0, 4, max(0, rs - n), rs]), n=n, option=rng.choice([0, 1]))
+    elif k == "kp_set_intrinsic_key":
+        op.update(key_type=rng.choice([2, 3, 7]), key_size=rng.choice([16, 32]))
+    elif k in ("kp_write_nonvolatile", "kp_read_nonvolatile"):
+        op.update(mem_id=rng.choice([0, 1, 9]))
+    elif k == "reset":
+        op.update(reopen=rng.random() < 0.6)
     if malformed and rng.random() < 0.5:
         for key in ("addr", "value", "arg", "pattern", "index"):
             if key in op and rng.random() < 0.4:
@@ -778,7 +957,38 @@ def oracle_op(s, case, op, res, status, tx, pre_mem, pre_sb, pydev, evs, strict,
         elif k == "set_property":
             if pydev.props.get(op["tag"]) != op["value"]:
                 viol.append(("set_property reports success but the device property is not the value", None))
-        if k in SIMPLE or k in ("write_memory", "receive_sb_file", "read_memory", "get_property"):
+        elif k == "load_image" and not (pydev.hid and not pydev.image_mode) and not (pydev.mp < 32 and pydev.max_data_packet > pydev.mp):
+            # (second exemption: after a failed size query McuBoot falls back to 32-byte packets, which only the stub's tiny devices refuse)
+            # (over HID load_image expects neither ACK nor response: a device that is not collecting an image cannot be noticed)
+            if pydev.image != pydev.pre["image"] + op_data(op):
+                viol.append(("load_image reports success but the device did not collect exactly the image", {"got": len(pydev.image) - len(pydev.pre["image"]), "sent": op["n"]}))
+        elif k == "kp_set_user_key":
+            if pydev.keys.get(op["key_type"]) != op_data(op):
+                viol.append(("kp_set_user_key reports success but the device does not hold exactly the key", None))
+        elif k == "kp_write_key_store":
+            if pydev.ks != op_data(op):
+                viol.append(("kp_write_key_store reports success but the device key store is not exactly the data", None))
+        elif k == "kp_read_key_store":
+            got = bytes.fromhex(res[5:]) if res[5:] != "-" else b""
+            if got != pydev.pre["ks"]:
+                viol.append(("kp_read_key_store reports success but the returned bytes are not the device's key store", {"returned_len": len(got)}))
+        elif k == "flash_read_resource":
+            got = bytes.fromhex(res[5:]) if res[5:] != "-" else b""
+            a, n = op["addr"], op["n"]
+            if a + n > len(pydev.resource) or got != pydev.resource[a:a + n]:
+                viol.append(("flash_read_resource reports success but the returned bytes are not exactly the device's bytes", {"returned_len": len(got)}))
+        elif k == "efuse_read_once":
+            if res != f"ok:n:{pydev.pre['fuses'].get(op['index'], 0)}":
+                viol.append(("efuse_read_once reports a value the device does not hold", res))
+        elif k == "flash_read_once":
+            got = bytes.fromhex(res[5:]) if res[5:] != "-" else b""
+            want = b"".join(struct.pack("<I", pydev.pre["fuses"].get(op["index"] + j, 0)) for j in range(op["count"] // 4))
+            if got != want:
+                viol.append(("flash_read_once reports bytes the device does not hold", res[:40]))
+        elif k == "efuse_program_once" and op["verify"]:
+            if pydev.fuses.get(op["index"] & 0xFFFFFF, 0) & op["value"] != op["value"]:
+                viol.append(("efuse_program_once(verify=True) reports success but the fuse word does not contain the value", None))
+        if k in SIMPLE or k in DATA_OPS:
             if not evs and not (k == "read_memory" and op["n"] == 0 and cfg["usb"] and not op["fast"]):
                 viol.append((f"{k} reports success although no command reached the device", None))
             for e in evs:
@@ -806,8 +1016,8 @@ def run_case(ck, s, drv, case, live_cache=None, strict_from=None):
         live, state = model_live(drv, cfg, dev, ops)
         if live_cache is not None:
             live_cache["live"] = (live, state)
-    transcript = [c for (_r, _st, _tx, rel) in live for c in rel]
-    writes_per_op = [len(tx) for (_r, _st, tx, _rel) in live]
+    transcript = [c for (_r, _st, _tx, rel, _rd) in live for c in rel]
+    writes_per_op = [len(tx) for (_r, _st, tx, _rel, _rd) in live]
     nofault = fault["kind"] == "none"
     t2 = apply_fault(transcript, fault, hid)
     # 2. real host on the (faulted) transcript
@@ -815,15 +1025,15 @@ def run_case(ck, s, drv, case, live_cache=None, strict_from=None):
     # 3. model host on the same transcript (open loop)
     model = model_script(drv, cfg, t2, ops)
     ok = True
-    for i, ((res, st, tx), (mres, mst, mtx, _)) in enumerate(zip(real, model)):
-        if not s.compare({"case": case, "op_index": i}, canon_op(res, st, tx), canon_op(mres, mst, mtx),
-                         "operation result / status_code / bytes written differ between McuBoot and the model"):
+    for i, ((res, st, tx, rd), (mres, mst, mtx, _, mrd)) in enumerate(zip(real, model)):
+        if not s.compare({"case": case, "op_index": i}, canon_op(res, st, tx, rd), canon_op(mres, mst, mtx, mrd),
+                         "operation result / status_code / bytes written / number of device reads differ between McuBoot and the model"):
             ok = False
             break
     if nofault:
         # the open-loop replay of the model must reproduce its own closed-loop run
-        for i, ((mres, mst, mtx, _), (lres, lst, ltx, _)) in enumerate(zip(model, live)):
-            s.compare({"case": case, "op_index": i, "what": "closed loop vs replay"}, canon_op(lres, lst, ltx), canon_op(mres, mst, mtx),
+        for i, ((mres, mst, mtx, _, mrd), (lres, lst, ltx, _, lrd)) in enumerate(zip(model, live)):
+            s.compare({"case": case, "op_index": i, "what": "closed loop vs replay"}, canon_op(lres, lst, ltx, lrd), canon_op(mres, mst, mtx, mrd),
                       "model: replay of the recorded transcript differs from the closed-loop run")
     # 4. oracle on the real host, with the python reference device fed by the real host's writes
     pydev = PyDev(dev, hid)
@@ -837,16 +1047,19 @@ def run_case(ck, s, drv, case, live_cache=None, strict_from=None):
                 fault_op = i
                 break
     soft_hits = 0
-    for i, (op, (res, st, tx)) in enumerate(zip(ops, real)):
+    for i, (op, (res, st, tx, _rd)) in enumerate(zip(ops, real)):
         pre_mem, pre_sb = bytes(pydev.mem), pydev.sb
+        pydev.pre = {"image": pydev.image, "ks": pydev.ks, "fuses": dict(pydev.fuses), "keys": dict(pydev.keys)}
         ne = len(pydev.events)
         for w in tx:
             pydev.feed(w)
         evs = pydev.events[ne:]
         strict = nofault or (case.get("strict", True) and (fault_op is None or i <= fault_op))
+        verify_ok = not (op["op"] == "efuse_program_once" and op["verify"]) or \
+            pydev.fuses.get(op["index"] & 0xFFFFFF, 0) & op["value"] == op["value"]
         viol = oracle_op(s, case, op, res, st, tx, pre_mem, pre_sb, pydev, evs, strict, nofault, cfg)
         if nofault:
-            exp = expected_success(op, evs, cfg)
+            exp = expected_success(op, evs, cfg, verify_ok)
             if op["op"] == "open":
                 # open() does not touch status_code; with >= 50 dummy bytes per ping the link is left out of step (correspondence only)
                 if dev["dummy"] < 50 and res != "ok:unit":
@@ -855,9 +1068,20 @@ def run_case(ck, s, drv, case, live_cache=None, strict_from=None):
                 for what, obs in viol:
                     s.expect(False, {"case": case, "op_index": i}, what, obs, None)
                 continue
-            if dev["dummy"] >= 50 and cfg["tr"] == "serial" and any(o["op"] == "open" for o in ops[:i]):
+            if dev["dummy"] >= 50 and cfg["tr"] == "serial" and any(o["op"] in ("open", "reset") for o in ops[:i + 1]):
                 continue
             own = [e for e in evs if not (e["tag"] == 7 and e["params"][:1] == [MP_PROP] and op["op"] != "get_property")]
+            if op["op"] == "load_image":
+                # no command at all: the data packets themselves are the operation
+                if not hid and op["n"] > 0 and is_success(res, st) != pydev.image_mode and not any(o["op"] in ("open", "reset") for o in ops[:i]):
+                    viol.append(("without any fault load_image success does not mirror whether the device collected the image", {"result": res, "image_mode": pydev.image_mode}))
+                for what, obs in viol:
+                    s.expect(False, {"case": case, "op_index": i}, what, obs, None)
+                continue
+            if op["op"] == "reset":
+                for what, obs in viol:
+                    s.expect(False, {"case": case, "op_index": i}, what, obs, None)
+                continue
             if op["op"] == "read_memory" and op["n"] == 0 and cfg["usb"] and not op["fast"]:
                 continue  # zero-length read on a UsbDevice sends no command at all and returns b"" (falsy)
             if not own:
@@ -875,6 +1099,8 @@ def run_case(ck, s, drv, case, live_cache=None, strict_from=None):
                 if "expect" in last and last["status"] == 0 and last["got"] != last["expect"]:
                     dev_st = None
                 shown = int(res.split(":")[2]) if res.startswith("E:cmd:") else st
+                if op["op"] == "efuse_program_once" and op["verify"] and not verify_ok:
+                    dev_st = None  # OTP_VERIFY_FAIL is the host's own verdict
                 if dev_st is not None and res.startswith(("ok:", "E:cmd:")) and shown != dev_st:
                     viol.append(("status_code / McuBootCommandError value is not the status the device sent", {"host": shown, "device": dev_st}))
         if (not nofault) and i == fault_op and fault["kind"] in ("nak", "abort") and not hid and is_success(res, st) and op["op"] != "open":
@@ -892,11 +1118,11 @@ def run_case(ck, s, drv, case, live_cache=None, strict_from=None):
     if nofault:
         # (a device with a packet size below McuBoot's 32-byte fallback refuses the packets sent after a failed size query
         #  and keeps answering: by construction of the stub, not a protocol effect)
-        if leftover and not (dev["dummy"] >= 50 and any(o["op"] == "open" for o in ops)) and not (pydev.bad_packets and dev["mp"] < 32):
+        if leftover and not (dev["dummy"] >= 50 and any(o["op"] in ("open", "reset") for o in ops)) and not (pydev.bad_packets and dev["mp"] < 32):
             s.expect(False, {"case": case}, "without any fault the host left bytes of the device unread", leftover, 0)
         # final device state: python reference fed by the REAL host's writes vs the Lean reference device driven by the model host
-        want = f"mem={hx(pydev.mem)} sb={hx(pydev.sb)} ncmd={pydev.ncmd}"
-        got = " ".join(p for p in state.split(" ") if p.startswith(("mem=", "sb=", "ncmd=")))
+        want = pydev.state_str()
+        got = " ".join(p for p in state.split(" ") if p.startswith(("mem=", "sb=", "ncmd=", "img=", "ks=", "fuses=", "keys=")))
         s.compare({"case": case, "what": "final device state"}, want, got, "final memory of the reference device differs (python reference fed by McuBoot's writes vs Lean reference device)")
     return real, ok, soft_hits, transcript
 
@@ -1152,7 +1378,7 @@ def run(ck):
         run_case(ck, s2, drv, case, cache)
         hid = case["cfg"]["tr"] == "hid"
         live, _state = cache["live"]
-        transcript = [c for (_r, _st, _tx, rel) in live for c in rel]
+        transcript = [c for (_r, _st, _tx, rel, _rd) in live for c in rel]
         for fault, strict in enumerate_faults(transcript, hid, rng):
             if n_fault >= cap:
                 break
@@ -1195,7 +1421,7 @@ def crafted_stream(ck, drv):
                          {"op": "fill_memory", "addr": 0, "n": n, "pattern": 5}])
         case = {"cfg": cfg, "dev": dev, "ops": [op]}
         live, _state = model_live(drv, cfg, dev, [op])
-        transcript = [c for (_r, _st, _tx, rel) in live for c in rel]
+        transcript = [c for (_r, _st, _tx, rel, _rd) in live for c in rel]
         # choose a frame, cut its payload to k bytes, rewrite the CRC field to the CRC of the shortened frame as the host computes it
         frames = [(ci, it) for ci, c in enumerate(transcript) for it in walk_serial(c) if it[0] == "frame" and it[2] - it[1] > 7]
         if not frames:
@@ -1210,9 +1436,9 @@ def crafted_stream(ck, drv):
         t2 = transcript[:ci] + [newc] + [b""] * (len(transcript) - ci - 1)
         real, _left, _reads = run_real(cfg, t2, [op])
         model = model_script(drv, cfg, t2, [op])
-        (res, stt, tx), (mres, mst, mtx, _) = real[0], model[0]
+        (res, stt, tx, rd), (mres, mst, mtx, _, mrd) = real[0], model[0]
         s.note((case, ci, k))
-        s.compare({"case": case, "chunk": ci, "keep": k}, canon_op(res, stt, tx), canon_op(mres, mst, mtx))
+        s.compare({"case": case, "chunk": ci, "keep": k}, canon_op(res, stt, tx, rd), canon_op(mres, mst, mtx, mrd))
         pydev = PyDev(dev, False)
         for w in tx:
             pydev.feed(w)
@@ -1238,6 +1464,9 @@ def sdp_op_line(op):
         return f"sdp_op {k} {op['addr']} {hx(op_data(op))}"
     if k == "jump_and_run":
         return f"sdp_op jump_and_run {op['addr']}"
+    if k == "sdps_write_file":
+        nc, ps = sdps_rom_info(op["family"])
+        return f"sdp_op sdps_write_file {int(nc)} {ps} {hx(op_data(op))}"
     return f"sdp_op {k}"
 
 
@@ -1270,19 +1499,43 @@ def sdp_classify(exc):
     return "E:other"
 
 
-def sdp_run_real(ce, transcript, ops):
+_SDPS_ROM = {}
+
+
+def sdps_rom_info(family):
+    """(no_cmd, pack_size) of a family as the real SDPS object reads them from the database"""
+    if family not in _SDPS_ROM:
+        from spsdk.sdp.protocol.serial_protocol import SDPSerialProtocol
+        from spsdk.sdp.sdps import SDPS
+        ri = SDPS(_proto_class(SDPSerialProtocol)((_STUBS or make_stub_classes())[0]([], False, False)), family).rom_info
+        _SDPS_ROM[family] = (bool(ri.no_cmd), int(ri.hid_pack_size))
+    return _SDPS_ROM[family]
+
+
+def sdp_run_real(ce, transcript, ops, tr="serial"):
     global _STUBS
+    import spsdk.sdp.protocol.bulk_protocol as bulk
+    from spsdk.sdp.protocol.bulk_protocol import SDPBulkProtocol
     from spsdk.sdp.protocol.serial_protocol import SDPSerialProtocol
     from spsdk.sdp.sdp import SDP
+    from spsdk.sdp.sdps import SDPS
     if _STUBS is None:
         _STUBS = make_stub_classes()
-    dev = _STUBS[0](transcript, False, False)
-    sdp = SDP(_proto_class(SDPSerialProtocol)(dev), cmd_exception=bool(ce))
+    hid = tr == "hid"
+    # the report table is module-level state that SDPS.write_file reconfigures: every case starts from the defaults
+    bulk.HID_REPORT["CMD"] = (0x01, 1024, False)
+    bulk.HID_REPORT["DATA"] = (0x02, 1024, False)
+    dev = _STUBS[0](transcript, hid, False)
+    proto = _proto_class(SDPBulkProtocol if hid else SDPSerialProtocol)(dev)
+    sdp = SDP(proto, cmd_exception=bool(ce))
     out = []
     for op in ops:
         n0 = len(dev.tx)
         try:
-            res = sdp_call(sdp, op)
+            if op["op"] == "sdps_write_file":
+                res = canon_val(SDPS(proto, op["family"]).write_file(op_data(op)))
+            else:
+                res = sdp_call(sdp, op)
         except Exception as exc:  # noqa: BLE001
             res = sdp_classify(exc)
         out.append((res, int(sdp.status_code.tag), int(sdp.hab_status), int(sdp.cmd_status), dev.tx[n0:]))
@@ -1295,7 +1548,7 @@ def sdp_parse_answer(ans):
         return (ans, -1, -1, -1, [], [])
     res, st, hab, cs, tx, rel = parts
     txl = [] if tx[3:] == "." else [bytes.fromhex(w) if w != "-" else b"" for w in tx[3:].split(",")]
-    rell = [] if rel[4:] == "." else [bytes.fromhex(w) if w != "-" else b"" for w in rel[4:].split(",")]
+    rell = [] if rel[4:] == "." else [parse_chunk(c, True) for c in rel[4:].split(",")]  # list of reports / serial: one string
     return res, int(st[3:]), int(hab[4:]), int(cs[3:]), txl, rell
 
 
@@ -1306,7 +1559,9 @@ def sdp_canon(res, st, hab, cs, tx):
 class PyRom:
     """independent re-implementation of the reference ROM's effects, fed with the real host's writes"""
 
-    def __init__(self, rom):
+    def __init__(self, rom, hid=False):
+        self.hid = hid
+        self.buf = b""
         self.mem = bytearray(gen_bytes(rom["mem_seed"], rom["mem_size"]))
         self.forced = {}
         for i, v in rom["forced"]:
@@ -1316,6 +1571,24 @@ class PyRom:
         self.events = []
 
     def feed(self, w):
+        if self.hid:
+            if not w:
+                return
+            rid, payload = w[0], w[1:]
+            if self.recv is not None:
+                if rid == 2:
+                    n = self.recv[2]
+                    self.buf += payload[:n - len(self.buf)]
+                    if len(self.buf) == n:
+                        b, self.buf = self.buf, b""
+                        self.feed_serial(b)
+            elif rid == 1:
+                self.buf = b""
+                self.feed_serial(payload[:16])
+            return
+        self.feed_serial(w)
+
+    def feed_serial(self, w):
         if self.recv is not None:
             tag, a, n, ev = self.recv
             self.recv = None
@@ -1341,8 +1614,13 @@ class PyRom:
             else:
                 ev["ok"] = ev["forced"] == 0x128A8A12
         elif tag in (0x0404, 0x0A0A, 0x0606):
-            ev["got"] = False
-            self.recv = (tag, a, cnt, ev)
+            if cnt == 0:
+                ev["got"] = True
+                if tag == 0x0404 and ev["forced"] is None and a > len(self.mem):
+                    ev["ok"] = False
+            else:
+                ev["got"] = False
+                self.recv = (tag, a, cnt, ev)
         elif tag == 0x0101:
             ev["ok"] = a + cnt <= len(self.mem)
 
@@ -1375,15 +1653,18 @@ def sdp_gen_ops(rng, size, nmax=6):
 
 def sdp_streams(ck, drv):
     rng = ck.rng
-    s = ck.stream("sdp_sequences", "SDP over the serial protocol (thin layer): random ROMs (memory 64..600 B, HAB locked/unlocked, forced status words) x sequences of 1..6 "
-                  "operations (read / write / write_file / write_dcd / write_csf / skip_dcd / jump_and_run / read_status; read lengths {0,1,4,63,64,65,128,129,...}), "
-                  "cmd_exception on/off; non-trivial = distinct case")
-    sf = ck.stream("sdp_faults", "short SDP sequences: the device->host stream cut at every position, every status word replaced, every byte corrupted "
-                   "(SDP has no checksum: corruption outside status words is search-only); non-trivial = distinct (case, fault)")
-    ncase = ck.budget(150, 2500)
-    nfault_cap = ck.budget(1500, 20000)
+    s = ck.stream("sdp_sequences", "SDP over SDPSerialProtocol and over SDPBulkProtocol (USB-HID reports): random ROMs (memory 64..600 B, HAB locked/unlocked, forced status "
+                  "words) x sequences of 1..6 operations (read / write / write_file / write_dcd / write_csf / skip_dcd / jump_and_run / read_status; read lengths "
+                  "{0,1,4,63,64,65,128,129,...}), cmd_exception on/off; non-trivial = distinct case")
+    sf = ck.stream("sdp_faults", "short SDP sequences: serial: the device->host stream cut at every byte position, every status word replaced, every byte corrupted; HID: "
+                   "every report dropped (and all later ones), cut short, its status word replaced, bytes corrupted (SDP has no checksum: corruption outside status "
+                   "words is search-only); non-trivial = distinct (case, fault)")
+    ncase = ck.budget(160, 2500)
+    nfault_cap = ck.budget(1600, 20000)
     nf = 0
     for ci in range(ncase):
+        tr = "hid" if ci % 2 else "serial"
+        hid = tr == "hid"
         size = rng.choice([64, 200, 600])
         rom = {"mem_seed": rng.randrange(1 << 30), "mem_size": size, "locked": rng.random() < 0.3, "err": rng.choice([0xF0F0F0F0, 0x33221100]),
                "forced": []}
@@ -1393,20 +1674,46 @@ def sdp_streams(ck, drv):
             fi = rng.randrange(0, len(ops))
             # a forced word is a device *error*: never one of the OK values
             rom["forced"] = [(fi, rng.choice([0, 0x12345678, 0xFFFFFFFF, 0xF0F0F0F0]))]
-        case = {"ce": ce, "rom": rom, "ops": ops}
+        case = {"ce": ce, "tr": tr, "rom": rom, "ops": ops}
         forced = ";".join(f"{i}={v}" for i, v in rom["forced"]) or "-"
-        head = [f"sdp_cfg {int(ce)}", f"sdp_rom {hx(gen_bytes(rom['mem_seed'], size))} {int(rom['locked'])} {rom['err']} {forced}"]
+        head = [f"sdp_cfg {int(ce)} {tr}", f"sdp_rom {hx(gen_bytes(rom['mem_seed'], size))} {int(rom['locked'])} {rom['err']} {forced}"]
         ans = drv.batch(head + ["sdp_live"] + [sdp_op_line(o) for o in ops] + ["sdp_state"])
         live = [sdp_parse_answer(a) for a in ans[3:-1]]
-        transcript = [c for l in live for c in l[5]]
+        # transcript: per host write, what the device releases (serial: bytes, HID: list of reports)
+        transcript = [(c if hid else b"".join(c)) for l in live for c in l[5]]
         writes_per_op = [len(l[4]) for l in live]
 
+        def op_of_chunk(cidx):
+            acc = 0
+            for i, n in enumerate(writes_per_op):
+                acc += n
+                if cidx < acc:
+                    return ops[i]["op"]
+            return None
+
         def one(fault, strict, stream):
-            t2 = [bytes(c) for c in transcript]
+            t2 = [list(c) if hid else bytes(c) for c in transcript]
             if fault is not None:
                 k, pos = fault["kind"], fault["pos"]
                 ci2, off = pos
-                if k == "truncate":
+                if hid:
+                    ri = fault.get("report", 0)
+                    if k == "truncate":          # this report and everything after it is missing
+                        t2[ci2] = t2[ci2][:ri]
+                        for j in range(ci2 + 1, len(t2)):
+                            t2[j] = []
+                    elif k == "short":           # the report is cut short, later ones missing
+                        t2[ci2] = t2[ci2][:ri] + [t2[ci2][ri][:off]]
+                        for j in range(ci2 + 1, len(t2)):
+                            t2[j] = []
+                    elif k == "corrupt":
+                        r = bytearray(t2[ci2][ri])
+                        r[off] ^= fault["xor"]
+                        t2[ci2][ri] = bytes(r)
+                    elif k == "status":
+                        r = t2[ci2][ri]
+                        t2[ci2][ri] = r[:1] + struct.pack(">I", fault["value"]) + r[5:]
+                elif k == "truncate":
                     t2[ci2] = t2[ci2][:off]
                     for j in range(ci2 + 1, len(t2)):
                         t2[j] = b""
@@ -1416,14 +1723,14 @@ def sdp_streams(ck, drv):
                     t2[ci2] = bytes(c)
                 elif k == "status":
                     t2[ci2] = t2[ci2][:off] + struct.pack(">I", fault["value"]) + t2[ci2][off + 4:]
-            real, leftover = sdp_run_real(ce, t2, ops)
-            mans = drv.batch([head[0], "sdp_script " + (",".join(hx(c) for c in t2) if t2 else ".")] + [sdp_op_line(o) for o in ops])
+            real, leftover = sdp_run_real(ce, t2, ops, tr)
+            mans = drv.batch([head[0], "sdp_script " + (",".join(chunk_str(c, hid) for c in t2) if t2 else ".")] + [sdp_op_line(o) for o in ops])
             model = [sdp_parse_answer(a) for a in mans[2:]]
             inp = {"sdp_case": case, "fault": fault}
             for i, (r, m) in enumerate(zip(real, model)):
                 if not stream.compare(dict(inp, op_index=i), sdp_canon(*r), sdp_canon(*m[:5]), "SDP operation result / status / bytes written differ between SDP and the model"):
                     break
-            rom_o = PyRom(rom)
+            rom_o = PyRom(rom, hid)
             fault_op = None
             if fault is not None:
                 acc = 0
@@ -1478,16 +1785,29 @@ def sdp_streams(ck, drv):
                 got = " ".join(p for p in ans[-1].split(" ") if p.startswith(("mem=", "ncmd=")))
                 stream.compare(dict(inp, what="final ROM state"), want, got, "final memory of the reference ROM differs (python reference fed by SDP's writes vs Lean ROM)")
 
-        def op_of_chunk(cidx):
-            acc = 0
-            for i, n in enumerate(writes_per_op):
-                acc += n
-                if cidx < acc:
-                    return ops[i]["op"]
-            return None
-
         one(None, True, s)
-        s.note(case, cls=f"ce={int(ce)}/locked={int(rom['locked'])}")
+        s.note(case, cls=f"{tr}/ce={int(ce)}/locked={int(rom['locked'])}")
+        status_ops = ("write", "skip_dcd", "read_status", "write_file", "write_dcd", "write_csf")
+        if hid:
+            nrep = sum(len(c) for c in transcript)
+            if nrep <= 12 and nf < nfault_cap:
+                for ci2, c in enumerate(transcript):
+                    for ri, r in enumerate(c):
+                        fl = [({"kind": "truncate", "pos": (ci2, 0), "report": ri}, True, "truncate")]
+                        for ln in (0, 1, 3, 4, len(r) - 1):
+                            if 0 <= ln < len(r):
+                                fl.append(({"kind": "short", "pos": (ci2, ln), "report": ri}, True, "short-report"))
+                        if r[:1] == b"\x04" and op_of_chunk(ci2) in status_ops:
+                            fl.append(({"kind": "status", "pos": (ci2, 1), "report": ri, "value": rng.choice([0, 0x12345678, 0xFFFFFFFF])}, True, "status-word"))
+                        for off in sorted({0, 1, 4, len(r) - 1}):
+                            fl.append(({"kind": "corrupt", "pos": (ci2, off), "report": ri, "xor": rng.choice([1, 0x80, 0xFF])}, False, "corrupt(search-only)"))
+                        for f, strict, cls in fl:
+                            if nf >= nfault_cap:
+                                break
+                            one(f, strict, sf)
+                            sf.note((case, f), cls="hid:" + cls)
+                            nf += 1
+            continue
         total = sum(len(c) for c in transcript)
         if total <= 160 and nf < nfault_cap:
             for ci2, c in enumerate(transcript):
@@ -1503,11 +1823,49 @@ def sdp_streams(ck, drv):
                         one(f, False, sf)
                         sf.note((case, f), cls="corrupt(search-only)")
                         nf += 1
-                    if off == 4 and len(c) == 8 and op_of_chunk(ci2) in ("write", "skip_dcd", "read_status", "write_file", "write_dcd", "write_csf"):
+                    if off == 4 and len(c) == 8 and op_of_chunk(ci2) in status_ops:
                         f = {"kind": "status", "pos": (ci2, off), "value": rng.choice([0, 0x12345678, 0xFFFFFFFF])}
                         one(f, True, sf)
                         sf.note((case, f), cls="status-word")
                         nf += 1
+
+    # ---- SDPS: write-only protocol; compare every report written, check that the payload is delivered once and in order
+    ss = ck.stream("sdps", "SDPS.write_file for every supported family (ROM parameters no_cmd / pack size from the database) x data lengths {0,1,pack-1,pack,pack+1,"
+                   "2*pack+1,...}, over the bulk and the serial protocol class, followed by an SDP write_file on the same protocol module (the report size "
+                   "table SDPS reconfigures is module-level state); non-trivial = distinct case")
+    from spsdk.sdp.sdps import SDPS
+    fams = sorted(SDPS.get_supported_families())
+    for ci in range(ck.budget(60, 600)):
+        fam = fams[ci % len(fams)]
+        nc, ps = sdps_rom_info(fam)
+        tr = "hid" if ci % 4 else "serial"
+        n = rng.choice([0, 1, ps - 1, ps, ps + 1, 2 * ps + 1, rng.randrange(0, 3 * ps)])
+        ops = [{"op": "sdps_write_file", "family": fam, "n": n, "seed": rng.randrange(1 << 30)}]
+        if rng.random() < 0.5:
+            ops.append({"op": "write_file", "addr": 0, "n": rng.choice([1, 5, 1030]), "seed": rng.randrange(1 << 30)})
+        ce = rng.random() < 0.5
+        case = {"ce": ce, "tr": tr, "ops": ops}
+        real, _left = sdp_run_real(ce, [], ops, tr)
+        mans = drv.batch([f"sdp_cfg {int(ce)} {tr}", "sdp_script ."] + [sdp_op_line(o) for o in ops])
+        model = [sdp_parse_answer(a) for a in mans[2:]]
+        ss.note(case, cls=f"{tr}/{fam}/no_cmd={int(nc)}/pack={ps}")
+        for i, (r, m) in enumerate(zip(real, model)):
+            ss.compare({"sdps_case": case, "op_index": i}, sdp_canon(*r), sdp_canon(*m[:5]), "SDPS/SDP result or bytes written differ between implementation and model")
+        # oracle: the data reaches the device once, in order, in reports of the family's size
+        res, _st, _hab, _cs, tx = real[0]
+        data = op_data(ops[0])
+        ss.expect(res == "ok:none", {"sdps_case": case}, "SDPS.write_file raises although nothing can fail (nothing is read)", res)
+        if tr == "hid":
+            frames = list(tx)
+            if not nc:
+                cbw = frames.pop(0) if frames else b""
+                okc = cbw[:1] == b"\x01" and cbw[1:5] == b"BLTC" and struct.unpack_from("<I", cbw, 9)[0] == len(data) and len(cbw) == 1 + ps
+                ss.expect(okc, {"sdps_case": case}, "SDPS command block wrapper is not id 1, 'BLTC', length, padded to the pack size", hx(cbw[:40]))
+            payload = b"".join(f[1:] for f in frames)
+            ss.expect(all(f[:1] == b"\x02" and len(f) == 1 + ps for f in frames) and payload[:len(data)] == data and len(payload) - len(data) < ps,
+                      {"sdps_case": case}, "SDPS data reports do not carry exactly the image, in order, in reports of the pack size", len(frames))
+        else:
+            ss.expect(b"".join(tx[(0 if nc else 1):]) == data, {"sdps_case": case}, "SDPS over the serial protocol does not write exactly the image", len(tx))
 
 
 def replay(ck, data):
